@@ -81,8 +81,8 @@ CHECKS = {
         "5/C13",
     ),
     "C14": (
-        "history checker against a sequential specification (answers == Q(fresh model fitted on the last fit's arguments)) after every operation of random call sequences + input-immutability monitor (deep snapshot / identical)",
-        "Random histories (quick <= 8, thorough <= 20 ops) over fit/transform/inverse_transform/queries/compute/serialize/rotator.fit/bootstrapper.fit/failing fits on one object for every class; all ordered pairs fit(Da);fit(Db) of a 4-member data pool are enumerated.",
+        "history checker against a sequential specification (answers == Q(fresh model fitted on the last fit's arguments)) after every operation of random call sequences + input-immutability monitor (deep snapshot / identical) + source-free failpoints (sys.monitoring LINE events inside xeofs/: a fit or transform interrupted at a chosen statement, stratified by source file, then a refit)",
+        "Random histories (quick <= 8, thorough <= 20 ops) over fit/transform/inverse_transform/queries/compute/serialize/rotator.fit/bootstrapper.fit (one aged bootstrapper object)/failing fits/interrupted fits and transforms on one object for every class; all ordered pairs fit(Da);fit(Db) of a 4-member data pool (every third case with MultiIndex samples) are enumerated; evidence lists injections and distinct statement sites.",
         "5/C14",
     ),
     "C15": (
@@ -92,7 +92,7 @@ CHECKS = {
     ),
     "C16": (
         "reference-model monitor (independent eigh fractional powers) + icontract post-conditions on Whitener.fit / PCA.fit (T, Tinv Hermitian and mutually inverse, V orthonormal)",
-        "Whitener and PCA are driven directly on centred matrices (n>p, cond up to 1e6, real/complex, alpha in [0,1], numpy and dask): cov(Xw)=C^alpha, round trips of data and patterns, T/Tinv algebra and the leading subspace are compared with the oracle.",
+        "Whitener and PCA are driven directly on centred matrices (n>p, cond up to 1e6, up to 600 features, real/complex, alpha in [0,1], numpy and dask; every third object aged by a prior fit on other data): cov(Xw)=C^alpha, round trips of data and patterns, T/Tinv algebra and the leading subspace are compared with the oracle.",
         "5/C16",
     ),
     "C17": (
